@@ -526,15 +526,18 @@ class SymStruct:
                     # bytes as fresh variables tied to the value by ONE linear equation
                     # (definitional: the base-256 digits of the two's complement are unique)
                     cx = ctx()
-                    bs = [cx.fresh_int("pk") for _ in range(size)]
-                    total = z3.IntVal(0)
-                    for b in bs:
-                        cx.assume_term(z3.And(b.t >= 0, b.t <= 255))
-                        total = total * 256 + b.t
-                    if ch in _SIGNED:
-                        cx.assume_term(total == z3.If(v.t < 0, v.t + z3.IntVal(1 << (8 * size)), v.t))
+                    if size == 1:
+                        bs = [v if ch not in _SIGNED else SymNum(z3.If(v.t < 0, v.t + 256, v.t))]
                     else:
-                        cx.assume_term(total == v.t)
+                        bs = [cx.fresh_int("pk") for _ in range(size)]
+                        total = z3.IntVal(0)
+                        for b in bs:
+                            cx.assume_term(z3.And(b.t >= 0, b.t <= 255))
+                            total = total * 256 + b.t
+                        if ch in _SIGNED:
+                            cx.assume_term(total == z3.If(v.t < 0, v.t + z3.IntVal(1 << (8 * size)), v.t))
+                        else:
+                            cx.assume_term(total == v.t)
                     if order == "<":
                         bs.reverse()
                     out.extend(bs)
